@@ -2422,7 +2422,7 @@ pub fn run(cfg: &Cfg, rep: &mut Report) {
                 rep.require(r, 1);
             }
             rep.require("mvn:structured:exact-zero", 4);
-            rep.require("mvn:structured:zero-with-fill-in", 2);
+            rep.require("mvn:structured:zero-with-fill-in", 1); // the fixed hub cases guarantee one; more depend on the draw
         }
     }
     // larger dimensions (the quantifier does not bound d) and dimensions next to block edges: few
